@@ -299,20 +299,22 @@ def proof_obligations(pid, tier):
 
 # ------------------------------------------------------------------ world domain execution
 
-def run_world(hists, fixed=True, release=False):
+def run_world(hists, fixed=True, release=False, domain="world"):
     """execute histories on the implementation and on the model; returns result dicts.
-    Large batches are split into shards that run concurrently (order of results = order of hists)."""
+    Large batches are split into shards that run concurrently (order of results = order of hists).
+    domain "world-unwinding": every history is driven from a destructor while a panic raised by the caller unwinds
+    (only for histories known not to panic)."""
     exe = common.build_harness(release)
     drv = common.build_ocaml()
     d = common.run_dir()
     nshards = max(1, min(NSHARDS, len(hists) // 24))
     if nshards == 1:
-        return run_world_shard(exe, drv, d, 0, hists, fixed)
+        return run_world_shard(exe, drv, d, 0, hists, fixed, domain)
     import concurrent.futures
     # round-robin so that the expensive histories spread over the shards
     parts = [hists[k::nshards] for k in range(nshards)]
     with concurrent.futures.ThreadPoolExecutor(nshards) as ex:
-        outs = list(ex.map(lambda kp: run_world_shard(exe, drv, d, kp[0], kp[1], fixed), enumerate(parts)))
+        outs = list(ex.map(lambda kp: run_world_shard(exe, drv, d, kp[0], kp[1], fixed, domain), enumerate(parts)))
     res = [None] * len(hists)
     for k, part in enumerate(outs):
         for j, r in enumerate(part):
@@ -323,13 +325,13 @@ def run_world(hists, fixed=True, release=False):
 NSHARDS = int(os.environ.get("SV_SHARDS", "12"))
 
 
-def run_world_shard(exe, drv, d, shard, hists, fixed):
+def run_world_shard(exe, drv, d, shard, hists, fixed, domain="world"):
     hf = os.path.join(d, "hist%d.txt" % shard)
     tf = os.path.join(d, "impl%d.txt" % shard)
     with open(hf, "w") as f:
         for h in hists:
             f.write(wg.encode(h) + "\n")
-    impl_lines = run_harness(exe, "world", hf, hists, shard)
+    impl_lines = run_harness(exe, domain, hf, hists, shard)
     # the last entry of every line is the harness' own construction / hand-back ledger (tag 98): not part of the
     # transcript the model predicts
     ledgers = []
@@ -356,7 +358,7 @@ def run_world_shard(exe, drv, d, shard, hists, fixed):
         full = parse_tr(impl_lines[k])
         res.append(dict(hist=h, impl=full[0::2], effects=full[1::2], impl_full=full, model=model, eq=v[0],
                         complete=v[1], acc_pos=v[2], acc_code=v[3], c01d=v[4], c02d=v[5], extra=v[6:],
-                        ledger=ledgers[k]))
+                        ledger=ledgers[k], domain=domain))
     return res
 
 
@@ -880,18 +882,20 @@ def gen_world(pid, tier, seed, scale=1):
     return hists, stats
 
 
-def shrink_world(pid, hist, fixed=True):
+def shrink_world(pid, hist, fixed=True, domain="world"):
     """delta debugging on the op list, keeping `world_violation(pid, .)` of the same kind (a shorter history
     that fails for another reason - e.g. because removing a registration makes it panic - is not a reduction)"""
     def kind(v):
         return None if v is None else v.split(" (op ")[0][:60]
 
-    want = kind(world_violation(pid, run_world([list(hist)], fixed)[0]))
+    want = kind(world_violation(pid, run_world([list(hist)], fixed, domain=domain)[0]))
 
     def fails(h):
         if not h:
             return False
-        r = run_world([h], fixed)[0]
+        r = run_world([h], fixed, domain=domain)[0]
+        if domain != "world" and any(o == [9] for o in r["impl"]):
+            return False        # (a panic inside a history driven while unwinding would abort the process)
         v = world_violation(pid, r)
         return v is not None and (want is None or kind(v) == want)
 
@@ -921,7 +925,8 @@ def summarize(r):
                 impl=" | ".join(" ".join(map(str, o)) for o in r["impl_full"]),
                 model=" | ".join(" ".join(map(str, o)) for o in r["model"]),
                 faithful_equal=bool(r["eq"]), spec_accept=(r["acc_code"] == 0),
-                spec_reject_pos=r["acc_pos"], spec_reject_code=r["acc_code"])
+                spec_reject_pos=r["acc_pos"], spec_reject_code=r["acc_code"],
+                harness_domain=r.get("domain", "world"))
 
 
 def check_world(pid, tier, seed):
@@ -934,6 +939,21 @@ def check_world(pid, tier, seed):
         # release build as well: no overflow checks / debug assertions
         rel = run_world(hists[: min(len(hists), 20000)], fixed=True, release=True)
         results = results + rel
+    # ambient thread state must not matter: a sample of the histories in which nothing panicked is driven once more
+    # from a destructor while a panic raised by the caller unwinds; those results are judged like the others
+    calm = [r["hist"] for r in results if not any(o == [9] for o in r["impl"])]
+    cap = 150 if tier == "quick" else 1500
+    # (first the histories that abandon builders or queue lazy work - code that has destructors of its own -, then a
+    # stride through the rest)
+    own = [h for h in calm if any(c in (wg.CX, wg.EB, wg.LC, sg.LEXEC, sg.DRN, 80) for c, _ in h)]
+    rest = [h for h in calm if h not in own] if len(calm) < 20000 else []
+    pick = own[::max(1, len(own) // (2 * cap))][:2 * cap] + rest[::max(1, len(rest) // cap)][:cap]
+    if pid == "C17":
+        # without the probes: the first thing the specification can object to is then the index a creation takes
+        pick = [[(c, p) for c, p in h if c != wg.PROBE] for h in pick]
+    unw = run_world(pick, fixed=True, domain="world-unwinding") if pick else []
+    gstats["driven once more while a caller's panic unwinds"] = len(unw)
+    results = results + unw
     known, _fixed = load_known_findings()
     known_cls = {(k["property"], k["cls"]): k for k in known}
     violations, known_hits, diverged = [], collections.OrderedDict(), []
@@ -1042,8 +1062,9 @@ def check_world(pid, tier, seed):
         rc = 1
     elif violations:
         desc, r = violations[0]
-        small = shrink_world(pid, r["hist"])
-        rs = run_world([small], fixed=True)[0]
+        dom = r.get("domain", "world")
+        small = shrink_world(pid, r["hist"], domain=dom)
+        rs = run_world([small], fixed=True, domain=dom)[0]
         if world_violation(pid, rs) is None:
             rs = r
         desc = world_violation(pid, rs) or desc
@@ -1205,7 +1226,7 @@ def replay(path):
         print(json.dumps(obj, indent=1))
         return 1
     h = wg.decode(obj["encoded"])
-    r = run_world([h], fixed=True)[0]
+    r = run_world([h], fixed=True, domain=obj.get("harness_domain", "world"))[0]
     v = world_violation(pid, r)
     print(json.dumps(summarize(r), indent=1))
     common.cleanup_run_dir()
